@@ -7,11 +7,11 @@
 //!   set_nodes gets exactly the data-centre layout of cur; every departed address is disconnected;
 //!   a consumer that removes `left` then inserts `joined` holds exactly others(cur).
 use super::*;
-use std::net::{IpAddr, Ipv4Addr};
 
-const NID: usize = 3;
+const NID: usize = 2;
 const SELF_ID: NodeId = 0;
-const DCS: [&str; 2] = ["a", "b"];
+/// identities of the data-centre names "a" and "b"
+const DCS: [DcName; 2] = [DcName(0x6100_0000_0000_0001), DcName(0x6200_0000_0000_0001)];
 
 #[derive(Clone, Copy)]
 struct AbsMember {
@@ -21,34 +21,21 @@ struct AbsMember {
 }
 type AbsSnap = [AbsMember; NID];
 
-/// presence pattern is CONCRETE per harness (bit i of `bits` = node i present; self always present):
-/// with symbolic presence the symbolic execution of the map/vector stand-ins did not finish in 20 min.
-/// Addresses and data centres stay symbolic.
-fn snap(present_bits: u8, alt_bits: u8) -> AbsSnap {
+fn any_snap() -> AbsSnap {
     let mut s = [AbsMember { present: false, alt_addr: false, dc: 0 }; NID];
     let mut i = 0;
     while i < NID {
-        let present = i == 0 || (present_bits >> i) & 1 == 1;
-        let alt = (alt_bits >> i) & 1 == 1;
-        s[i] = AbsMember { present, alt_addr: alt, dc: kani::any() };
+        s[i] = AbsMember { present: kani::any(), alt_addr: kani::any(), dc: kani::any() };
         kani::assume(s[i].dc < 2);
         i += 1;
     }
     s
 }
 fn addr_of(id: usize, alt: bool) -> SocketAddr {
-    SocketAddr::new(IpAddr::V4(Ipv4Addr::new(10, 0, 0, id as u8)), if alt { 9002 } else { 9001 })
+    vcoll::vkey::OpaqueId(((10u64 << 24 | id as u64) << 16) | if alt { 9002 } else { 9001 })
 }
 fn member_of(id: usize, m: &AbsMember) -> ClusterMember {
-    // data-centre name kept concrete on every path
-    let mut dc = String::new();
-    let mut d = 0;
-    while d < 2 {
-        if m.dc as usize == d {
-            dc = DCS[d].to_string();
-        }
-        d += 1;
-    }
+    let dc = if m.dc == 0 { DCS[0] } else { DCS[1] };
     ClusterMember { node_id: id as NodeId, public_addr: addr_of(id, m.alt_addr), data_center: dc }
 }
 fn build(s: &AbsSnap) -> NodeMembership {
@@ -69,8 +56,7 @@ fn pair_in(s: &AbsSnap, i: usize, t: &AbsSnap) -> bool {
 fn count_member(v: &Vec<ClusterMember>, m: &ClusterMember) -> usize {
     let mut c = 0;
     for x in v.iter() {
-        // field-wise (String equality goes through memcmp; data-centre names are one byte)
-        if x.node_id == m.node_id && x.public_addr == m.public_addr && x.data_center.as_bytes()[0] == m.data_center.as_bytes()[0] && x.data_center.len() == 1 {
+        if x == m {
             c += 1;
         }
     }
@@ -97,9 +83,11 @@ fn check_delta(d: &MembershipChange, prev: &AbsSnap, cur: &AbsSnap) {
     assert!(d.joined.len() == nj && d.left.len() == nl, "nothing else is reported");
 }
 
-fn delta_step(prev_bits: u8, prev_alt: u8, cur_bits: u8, cur_alt: u8) {
-    let prev = snap(prev_bits, prev_alt);
-    let cur = snap(cur_bits, cur_alt);
+#[kani::proof]
+#[kani::unwind(5)]
+fn mb_delta_step() {
+    let prev = any_snap();
+    let cur = any_snap();
     let mut items = Vec::new();
     items.push(build(&prev));
     items.push(build(&cur));
@@ -155,12 +143,12 @@ fn delta_step(prev_bits: u8, prev_alt: u8, cur_bits: u8, cur_alt: u8) {
         while i < NID {
             if cur[i].present && cur[i].dc as usize == d {
                 want += 1;
-                let got = lay.get(DCS[d]).map(|ns| ns.contains(&addr_of(i, cur[i].alt_addr)));
+                let got = lay.get(&DCS[d]).map(|ns| ns.contains(&addr_of(i, cur[i].alt_addr)));
                 assert!(got == Some(true), "every current member is in its data centre's node list");
             }
             i += 1;
         }
-        let got_len = lay.get(DCS[d]).map(|ns| ns.len()).unwrap_or(0);
+        let got_len = lay.get(&DCS[d]).map(|ns| ns.len()).unwrap_or(0);
         assert!(got_len == want, "and nobody else");
         if want > 0 {
             ndc += 1;
@@ -168,104 +156,11 @@ fn delta_step(prev_bits: u8, prev_alt: u8, cur_bits: u8, cur_alt: u8) {
         d += 1;
     }
     assert!(lay.len() == ndc, "no stale data centre in the layout");
-    if prev[1].present && cur[1].present {
-        kani::cover!(prev[1].alt_addr != cur[1].alt_addr, "address change");
-    }
-    kani::cover!(true, "transition checked");
+    kani::cover!(prev[1].present && !cur[1].present, "a node leaves");
+    kani::cover!(!prev[1].present && cur[1].present, "a node joins");
+    kani::cover!(prev[1].present && cur[1].present && prev[1].dc != cur[1].dc && prev[1].alt_addr == cur[1].alt_addr, "data centre change only");
+    kani::cover!(prev[1].present && cur[1].present && prev[1].alt_addr != cur[1].alt_addr, "address change");
 }
-macro_rules! delta_harness {
-    ($name:ident, $pp:expr, $pa:expr, $cp:expr, $ca:expr) => {
-        #[kani::proof]
-        #[kani::unwind(24)]
-        fn $name() {
-            delta_step($pp, $pa, $cp, $ca);
-        }
-    };
-}
-// name = mb_delta_<state of node 1><state of node 2>_<...>: 0 absent, 1 present at address A, 2 present at address B;
-// all 81 transitions of two other nodes; data centres of all three nodes symbolic
-delta_harness!(mb_delta_00_00, 0, 0, 0, 0);
-delta_harness!(mb_delta_00_01, 0, 0, 4, 0);
-delta_harness!(mb_delta_00_02, 0, 0, 4, 4);
-delta_harness!(mb_delta_00_10, 0, 0, 2, 0);
-delta_harness!(mb_delta_00_11, 0, 0, 6, 0);
-delta_harness!(mb_delta_00_12, 0, 0, 6, 4);
-delta_harness!(mb_delta_00_20, 0, 0, 2, 2);
-delta_harness!(mb_delta_00_21, 0, 0, 6, 2);
-delta_harness!(mb_delta_00_22, 0, 0, 6, 6);
-delta_harness!(mb_delta_01_00, 4, 0, 0, 0);
-delta_harness!(mb_delta_01_01, 4, 0, 4, 0);
-delta_harness!(mb_delta_01_02, 4, 0, 4, 4);
-delta_harness!(mb_delta_01_10, 4, 0, 2, 0);
-delta_harness!(mb_delta_01_11, 4, 0, 6, 0);
-delta_harness!(mb_delta_01_12, 4, 0, 6, 4);
-delta_harness!(mb_delta_01_20, 4, 0, 2, 2);
-delta_harness!(mb_delta_01_21, 4, 0, 6, 2);
-delta_harness!(mb_delta_01_22, 4, 0, 6, 6);
-delta_harness!(mb_delta_02_00, 4, 4, 0, 0);
-delta_harness!(mb_delta_02_01, 4, 4, 4, 0);
-delta_harness!(mb_delta_02_02, 4, 4, 4, 4);
-delta_harness!(mb_delta_02_10, 4, 4, 2, 0);
-delta_harness!(mb_delta_02_11, 4, 4, 6, 0);
-delta_harness!(mb_delta_02_12, 4, 4, 6, 4);
-delta_harness!(mb_delta_02_20, 4, 4, 2, 2);
-delta_harness!(mb_delta_02_21, 4, 4, 6, 2);
-delta_harness!(mb_delta_02_22, 4, 4, 6, 6);
-delta_harness!(mb_delta_10_00, 2, 0, 0, 0);
-delta_harness!(mb_delta_10_01, 2, 0, 4, 0);
-delta_harness!(mb_delta_10_02, 2, 0, 4, 4);
-delta_harness!(mb_delta_10_10, 2, 0, 2, 0);
-delta_harness!(mb_delta_10_11, 2, 0, 6, 0);
-delta_harness!(mb_delta_10_12, 2, 0, 6, 4);
-delta_harness!(mb_delta_10_20, 2, 0, 2, 2);
-delta_harness!(mb_delta_10_21, 2, 0, 6, 2);
-delta_harness!(mb_delta_10_22, 2, 0, 6, 6);
-delta_harness!(mb_delta_11_00, 6, 0, 0, 0);
-delta_harness!(mb_delta_11_01, 6, 0, 4, 0);
-delta_harness!(mb_delta_11_02, 6, 0, 4, 4);
-delta_harness!(mb_delta_11_10, 6, 0, 2, 0);
-delta_harness!(mb_delta_11_11, 6, 0, 6, 0);
-delta_harness!(mb_delta_11_12, 6, 0, 6, 4);
-delta_harness!(mb_delta_11_20, 6, 0, 2, 2);
-delta_harness!(mb_delta_11_21, 6, 0, 6, 2);
-delta_harness!(mb_delta_11_22, 6, 0, 6, 6);
-delta_harness!(mb_delta_12_00, 6, 4, 0, 0);
-delta_harness!(mb_delta_12_01, 6, 4, 4, 0);
-delta_harness!(mb_delta_12_02, 6, 4, 4, 4);
-delta_harness!(mb_delta_12_10, 6, 4, 2, 0);
-delta_harness!(mb_delta_12_11, 6, 4, 6, 0);
-delta_harness!(mb_delta_12_12, 6, 4, 6, 4);
-delta_harness!(mb_delta_12_20, 6, 4, 2, 2);
-delta_harness!(mb_delta_12_21, 6, 4, 6, 2);
-delta_harness!(mb_delta_12_22, 6, 4, 6, 6);
-delta_harness!(mb_delta_20_00, 2, 2, 0, 0);
-delta_harness!(mb_delta_20_01, 2, 2, 4, 0);
-delta_harness!(mb_delta_20_02, 2, 2, 4, 4);
-delta_harness!(mb_delta_20_10, 2, 2, 2, 0);
-delta_harness!(mb_delta_20_11, 2, 2, 6, 0);
-delta_harness!(mb_delta_20_12, 2, 2, 6, 4);
-delta_harness!(mb_delta_20_20, 2, 2, 2, 2);
-delta_harness!(mb_delta_20_21, 2, 2, 6, 2);
-delta_harness!(mb_delta_20_22, 2, 2, 6, 6);
-delta_harness!(mb_delta_21_00, 6, 2, 0, 0);
-delta_harness!(mb_delta_21_01, 6, 2, 4, 0);
-delta_harness!(mb_delta_21_02, 6, 2, 4, 4);
-delta_harness!(mb_delta_21_10, 6, 2, 2, 0);
-delta_harness!(mb_delta_21_11, 6, 2, 6, 0);
-delta_harness!(mb_delta_21_12, 6, 2, 6, 4);
-delta_harness!(mb_delta_21_20, 6, 2, 2, 2);
-delta_harness!(mb_delta_21_21, 6, 2, 6, 2);
-delta_harness!(mb_delta_21_22, 6, 2, 6, 6);
-delta_harness!(mb_delta_22_00, 6, 6, 0, 0);
-delta_harness!(mb_delta_22_01, 6, 6, 4, 0);
-delta_harness!(mb_delta_22_02, 6, 6, 4, 4);
-delta_harness!(mb_delta_22_10, 6, 6, 2, 0);
-delta_harness!(mb_delta_22_11, 6, 6, 6, 0);
-delta_harness!(mb_delta_22_12, 6, 6, 6, 4);
-delta_harness!(mb_delta_22_20, 6, 6, 2, 2);
-delta_harness!(mb_delta_22_21, 6, 6, 6, 2);
-delta_harness!(mb_delta_22_22, 6, 6, 6, 6);
-
 
 // native replay of Kani counterexamples (tools/replay.py writes the file)
 #[cfg(verif_replay)]
